@@ -16,12 +16,13 @@ import vlib
 SPEC = os.path.join(vlib.SPECS, "Cbor")
 MAL = ("dupkey", "unkkey", "indef", "trailing", "bignum")
 
-# capture groups run as separate driver processes (group "craft" needs the captures of the listed groups)
-JOBS = [("access-sharing", "access,sharing,craft"),
-        ("curves-num", "curves,num,znstar,mat"),
-        ("sig", "sig"), ("enc", "enc"), ("commit", "commit"),
-        ("sigma", "sigma"), ("zkp", "zkp"),
-        ("proto", "proto"), ("shards", "shards")]
+# capture groups run as separate driver processes: (tag, groups, shards in the quick tier, shards in the thorough tier);
+# a shard captures the whole group and runs the campaign on every n-th type
+JOBS = [("access-sharing", "access,sharing", 1, 3),
+        ("curves-num", "curves,num,znstar,mat", 1, 1),
+        ("sig", "sig", 1, 1), ("enc", "enc", 1, 2), ("commit", "commit", 1, 2),
+        ("sigma", "sigma", 1, 1), ("zkp", "zkp", 2, 5),
+        ("proto", "proto", 2, 4), ("shards", "shards", 1, 2)]
 
 
 def key_of(row):
@@ -136,10 +137,10 @@ def run(chk):
         n = validate(chk, "trace-model", rows[0], rows[1:])
         return r, n
 
-    def campaign(tag, groups):
+    def campaign(tag, groups, shard):
         def fn():
             out = os.path.join(vlib.scratch(chk.prop, "drv-" + tag), "trace.ndjson")
-            vlib.run_driver(binary, ["-out", out, "-seed", str(chk.seed), "-tier", tier, "-groups", groups], timeout=3000)
+            vlib.run_driver(binary, ["-out", out, "-seed", str(chk.seed), "-tier", tier, "-groups", groups, "-shard", shard], timeout=3000)
             rows = vlib.read_ndjson(out)
             hdr, rows = rows[0], rows[1:]
             account(rows)
@@ -153,12 +154,15 @@ def run(chk):
             return sum(res.values())
         return fn
 
-    jobs = JOBS
+    jobs = []
     only = os.environ.get("C12_JOBS")          # development knob: comma separated job tags (evidence then covers only those)
-    if only:
-        jobs = [(t, g) for t, g in JOBS if t in only.split(",")]
-    tasks = [("model", model)] + [("camp:" + t, campaign(t, g)) for t, g in jobs]
-    res = vlib.parallel(tasks, max_workers=5)
+    for t, g, nq, nt in JOBS:
+        if only and t not in only.split(","):
+            continue
+        n = nq if chk.quick else nt
+        jobs += [("%s.%d" % (t, i) if n > 1 else t, g, "%d/%d" % (i, n)) for i in range(n)]
+    tasks = [("model", model)] + [("camp:" + t, campaign(t, g, sh)) for t, g, sh in jobs]
+    res = vlib.parallel(tasks, max_workers=6)
     mc, nmodel = res["model"]
     chk.add_mc("CborMC/CborMC.cfg", mc)
     if mc.violation:
